@@ -2278,6 +2278,13 @@ class Interp:
         v = self.expr(e.value, env, mod)
         if isinstance(v, Unk):
             return v
+        if isinstance(v, _ArrSelect):
+            outs_ = []
+            for alt_ in (v.a, v.b):
+                env2_ = dict(env)
+                env2_['__alt__'] = alt_
+                outs_.append(self.subscript(ast.copy_location(ast.Subscript(value=ast.Name(id='__alt__', ctx=ast.Load()), slice=e.slice, ctx=ast.Load()), e), env2_, mod))
+            return merge_val(outs_[0], outs_[1], v.cond, e)
         if isinstance(v, Foreign):
             k = tuple(self.expr(x, env, mod) for x in e.slice.elts) if isinstance(e.slice, ast.Tuple) else (_SliceVal(*[self.expr(x, env, mod) if x is not None else None for x in (e.slice.lower, e.slice.upper, e.slice.step)]) if isinstance(e.slice, ast.Slice) else self.expr(e.slice, env, mod))
             r = v.sl_getitem(self, k, e)
@@ -2655,6 +2662,11 @@ class Interp:
     def libcall(self, name, args, kw, e, mod):
         last = name.split('.')[-1]
         root = name.split('.')[0]
+        for k_, a_ in enumerate(args):
+            if isinstance(a_, _ArrSelect):
+                r1_ = self.libcall(name, list(args[:k_]) + [a_.a] + list(args[k_ + 1:]), dict(kw), e, mod)
+                r2_ = self.libcall(name, list(args[:k_]) + [a_.b] + list(args[k_ + 1:]), dict(kw), e, mod)
+                return merge_val(r1_, r2_, a_.cond, e)
         if name == 'warnings.warn' or (root == 'logging' and last in ('debug', 'info', 'warning', 'warn', 'error', 'critical', 'exception', 'log')) \
                 or name.startswith('astropy.log.') or name.startswith('astropy.logger.log.'):
             return None       # a diagnostic: no effect on any value, file or object the properties speak about
@@ -3463,6 +3475,8 @@ class Interp:
 
     # ---- methods of symbolic values
     def method(self, recv, name, args, kw, e, mod):
+        if isinstance(recv, _ArrSelect):
+            return merge_val(self.method(recv.a, name, args, kw, e, mod), self.method(recv.b, name, args, kw, e, mod), recv.cond, e)
         if isinstance(recv, Foreign) and any(isinstance(a_, _SelectVal) for a_ in args):
             # an argument chosen between two values by a data-dependent condition: the call is made with each under its condition
             k_ = next(i_ for i_, a_ in enumerate(args) if isinstance(a_, _SelectVal))
@@ -3806,6 +3820,12 @@ class _Select(Foreign):
             finally:
                 interp.conds.pop()
         return merge_val(out[0], out[1], self.cond, node)
+
+
+class _ArrSelect:
+    """one of two arrays of different extent, chosen by a data-dependent condition: reductions, element reads and len() are taken of each and merged"""
+    def __init__(self, cond, a, b):
+        self.cond, self.a, self.b = cond, a, b
 
 
 class _SliceVal:
@@ -4296,6 +4316,9 @@ def merge_val(a, b, cond, node):
         bb = b if isinstance(b, Arr) else Arr((), num(b))
         if aa.dims == bb.dims and aa.mask is None and bb.mask is None:
             return Arr(aa.dims, cond * aa.poly + alg.b_not(cond) * bb.poly)
+        if isinstance(a, Arr) and isinstance(b, Arr) and a.ndim >= 1 and b.ndim >= 1:
+            # two arrays of different extent (a selection of an array, or the whole of it): kept apart; what is computed from the value is computed from each
+            return _ArrSelect(cond, a, b)
     if isinstance(a, Obj) and isinstance(b, Obj) and a.cls is b.cls:
         o = Obj(a.cls, {}, a.name)
         for k in set(a.attrs) | set(b.attrs):
